@@ -166,7 +166,13 @@ func coarseAlphabet(p int) map[string][]classOpt {
 	}
 	m["nonce"] = []classOpt{nonce(32), {"absent", func(a *refmodel.Claims) { a.NonceAbsent = true; a.Nonces = nil }}, nonce(31), nonce(48), nonce(64), nonce(65), nonce(8)}
 	if p == 2 {
-		m["nonce"] = append(m["nonce"], nonce(), nonce(32, 32), nonce(7))
+		m["nonce"] = append(m["nonce"], nonce(), nonce(32, 32), nonce(7), classOpt{"[a,a,b]", func(a *refmodel.Claims) {
+			a.NonceAbsent = false
+			a.Nonces = [][]byte{pat(32, 0x50), pat(32, 0x50), pat(48, 0x51)}
+		}}, classOpt{"[a,b,a,c]", func(a *refmodel.Claims) {
+			a.NonceAbsent = false
+			a.Nonces = [][]byte{pat(32, 0x50), pat(64, 0x52), pat(32, 0x50), pat(48, 0x51)}
+		}})
 	}
 	inst := func(n int, first byte) classOpt {
 		return classOpt{fmt.Sprintf("%d/%02x", n, first), func(a *refmodel.Claims) { a.InstID = bp(instID(n, first)) }}
